@@ -88,6 +88,31 @@ def gen_cases(rng, n, runner):
             for m, kind in mf.truncations(bv, rng, cap=6) + mf.overwrites(bv, pk, rng, cap=5):
                 cases.append(("sk %s sync %d %s -" % (pk, ty, tg.hx(m)), dict(kind=kind)))
                 cases.append(("sk %s async:%s %d %s -" % (pk, rng.choice(["all", "b1"]), ty, tg.hx(m)), dict(kind="async-" + kind)))
+    # skipping IN CONTEXT: the value is a field of an enclosing struct read by a tolerant reader which skips it and
+    # decodes the fields that follow (short-form and long-form headers after it, under every protocol incl. unchecked)
+    ctx = []
+    for (pk, v), ov in zip(vals, enc_v):
+        if not ov.startswith("W ") or vdepth(v.split(" ")) > 60 or len(ov) > 20000:
+            continue
+        a = rng.choice([1, 2, 5, 20])
+        b = a + rng.choice([1, 1, 2, 14, 15, 16, 40])
+        c = b + rng.choice([1, 3, 15])
+        f1, f2 = rng.choice(["i7", "s6162", "S1 f1 b1", "L3,2 y1 y2", "b1"]), rng.choice(["y-1", "b0", "S2 f1 i1 f2 i2"])
+        ctx.append((pk, v, "S3 f%d %s f%d %s f%d %s" % (a, v, b, f1, c, f2), a, (b, f1), (c, f2),
+                    0 if (pk == "compact" and v[0] == "b") else (len(ov.split(" ")[1]) // 2 if ov.split(" ")[1] != "-" else 0)))
+    enc_ctx = core.run_lines(runner, ["rt %s contig - 1 %s" % (pk, st) for pk, _, st, _, _, _, _ in ctx])
+    for (pk, v, st, a, (b, f1), (c, f2), elen), oc in zip(ctx, enc_ctx):
+        if not oc.startswith("W "):
+            continue
+        hx = oc.split(" ")[1]
+        trail = bytes(rng.randrange(256) for _ in range(rng.choice([0, 3])))
+        inp = hx + trail.hex()
+        want_sync = ["S3", "f%d" % a, "L1,1", "l%d" % elen, "f%d" % b] + tg.canon_tokens(pk, f1.split(" ")) + ["f%d" % c] + f2.split(" ")
+        meta = dict(kind="valid-ctx", want=want_sync, trailing=len(trail), depth=vdepth(v.split(" ")))
+        cases.append(("rds %s sync %s %d" % (pk, inp, a), meta))
+        cases.append(("rds %s async:%s %s %d" % (pk, rng.choice(["all", "b1", "h/p1"]), inp, a), dict(meta, kind="valid-ctx-async")))
+        if pk == "binary":
+            cases.append(("rds unsafe sync %s %d" % (hx + "00" * 16, a), dict(meta, kind="valid-ctx-unsafe", trailing=16)))
     # unskippable type codes
     for pk in PKS:
         for code in (0, 1):
@@ -95,7 +120,8 @@ def gen_cases(rng, n, runner):
             cases.append(("sk %s async:all %d 0000 -" % (pk, code), dict(kind="bad-type")))
     if len(cases) > n:
         keep = [c for c in cases if c[1]["kind"].startswith("valid") or c[1]["kind"] == "bad-type"]
-        rest = [c for c in cases if c not in keep]
+        keepset = set(id(c) for c in keep)
+        rest = [c for c in cases if id(c) not in keepset]
         rng.shuffle(rest)
         cases = keep + rest[:max(0, n - len(keep))]
     return cases
@@ -109,6 +135,21 @@ def oracle(case, meta, out):
     if out.startswith("HANG"):
         return "asynchronous skipper did not finish"
     if not meta["kind"].startswith("valid"):
+        return None
+    if meta["kind"].startswith("valid-ctx"):
+        if not out.startswith("ok "):
+            return "a tolerant reader skipping a well-formed field failed: " + out[:80]
+        t = out.split(" ")
+        j = t.index("REM")
+        got, want = t[1:j], list(meta["want"])
+        if "async" in meta["kind"]:
+            want[3] = "l-1"
+        if got != want:
+            if got[:4] == want[:4] or (got[:3] == want[:3] and "async" in meta["kind"]):
+                return "fields following a skipped field decode differently (skipped field id %s)" % want[1]
+            return "skip reported %s for a field occupying %s bytes" % (got[3] if len(got) > 3 else "?", want[3])
+        if int(t[j + 1]) != meta["trailing"]:
+            return "tolerant reader consumed %d bytes too many" % (meta["trailing"] - int(t[j + 1]))
         return None
     is_async = "async" in case.split(" ")[2]
     if meta["depth"] > LIMIT:
@@ -141,7 +182,7 @@ def oracle(case, meta, out):
 def run(chk, replay=None):
     gate, hb = core.std_setup(chk)
     rng = random.Random(chk.seed)
-    n = 6000 if chk.tier == "quick" else 120000
+    n = 11000 if chk.tier == "quick" else 150000
     if replay is not None:
         items = [(replay["case"], replay["meta"])]
     else:
@@ -163,7 +204,7 @@ def run(chk, replay=None):
     for c, meta in items:
         chk.count(c, meta["kind"].startswith("valid"))
         kinds[meta["kind"]] = kinds.get(meta["kind"], 0) + 1
-        if "depth" in meta:
+        if "depth" in meta and not meta["kind"].startswith("valid-ctx"):
             b = "<=8" if meta["depth"] <= 8 else "9..63" if meta["depth"] < 64 else "64" if meta["depth"] == 64 else ">64"
             depths[b] = depths.get(b, 0) + 1
     for prof, b in bins:
